@@ -1,6 +1,7 @@
 package rules
 
 import (
+	"bytes"
 	"fmt"
 	"go/types"
 	"sort"
@@ -54,7 +55,9 @@ func c05PrefixFns(c *Ctx) {
 		}
 		sort.Strings(names)
 		ev := consteval.New()
+		ev.Bytes = true // the prefix bytes themselves fold (byte-buffer constants)
 		for _, nme := range names {
+			wrongBytes := ""
 			key := fmt.Sprintf("C05.prefixfn/%s/%s", fid, nme)
 			classOf := func(id int64) (string, bool) {
 				outs, ok := ev.Eval(f, []consteval.Val{{K: consteval.Const, C: consts[nme]}, consteval.C(id)}, nil)
@@ -72,6 +75,17 @@ func c05PrefixFns(c *Ctx) {
 						set["no prefix"] = true
 					case o.Results[0].K == consteval.Ref:
 						set["prefix"] = true
+						// by value: start byte 0x01 (TINK) / 0x00 (CRUNCHY, LEGACY), then the key ID big-endian
+						if b, isB := o.Results[0].Bytes(); isB {
+							start := byte(0x00)
+							if strings.Contains(strings.ToUpper(nme), "TINK") {
+								start = 0x01
+							}
+							want := []byte{start, byte(id >> 24), byte(id >> 16), byte(id >> 8), byte(id)}
+							if !bytes.Equal(b, want) {
+								wrongBytes = fmt.Sprintf("for key ID %#x the prefix is %x, the Tink wire format says %x", id, b, want)
+							}
+						}
 					default:
 						return "", false
 					}
@@ -107,6 +121,9 @@ func c05PrefixFns(c *Ctx) {
 			case strings.Contains(up, "TINK") || strings.Contains(up, "CRUNCHY") || strings.Contains(up, "LEGACY"):
 				want = "prefix"
 			}
+			if bad == "" && wrongBytes != "" {
+				bad = wrongBytes
+			}
 			if bad == "" && want != "" && base != want {
 				bad = fmt.Sprintf("variant %s gives %q, want %q", nme, base, want)
 			}
@@ -125,6 +142,35 @@ func c05PrefixFns(c *Ctx) {
 			r.Check(guard.Strip(call.Call.Args[0]) == ssa.Value(f.Params[1]), "C05.prefixfn", fmt.Sprintf("C05.prefixfn/%s/%s argument", fid, call.Call.StaticCallee().Name()), p.Pos(ins.Pos()),
 				"the key ID encoded into the output prefix is not the function's key-ID parameter", "outputprefix."+call.Call.StaticCallee().Name()+"(keyID parameter)")
 		})
+	}
+	// the shared helpers themselves, by value
+	for _, h := range []struct {
+		name  string
+		start byte
+	}{{"Tink", 0x01}, {"Legacy", 0x00}} {
+		if f := p.PkgFunc("internal/outputprefix", h.name); f == nil {
+			r.AnchorMissing("C05.prefixfn", "internal/outputprefix."+h.name)
+		} else if !layoutCheck(c, "C05.prefixfn", "C05.prefixfn/outputprefix."+h.name, f, 0, []byte{h.start, 1, 2, 3, 4},
+			fmt.Sprintf("%#02x || be32(key ID)", h.start), consteval.C(0x01020304)) {
+			r.Unknown("C05.prefixfn", "C05.prefixfn/outputprefix."+h.name, p.FuncPos(f), "the prefix helper does not fold on a constant key ID")
+		}
+	}
+	// cryptofmt.OutputPrefix(proto key): the same bytes, as a string
+	if f := p.PkgFunc("core/cryptofmt", "OutputPrefix"); f != nil && len(f.Params) == 1 {
+		for _, row := range []struct{ pt, want string }{{"TINK", "\x01\x01\x02\x03\x04"}, {"LEGACY", "\x00\x01\x02\x03\x04"}, {"CRUNCHY", "\x00\x01\x02\x03\x04"}, {"RAW", ""}} {
+			ptc, ok := constOf(p, "proto/tink_go_proto", "OutputPrefixType_"+row.pt)
+			if !ok {
+				continue
+			}
+			env := bindFieldsAndGetters(f, map[string]consteval.Val{"OutputPrefixType": {K: consteval.Const, C: ptc}, "KeyId": consteval.C(0x01020304)})
+			got, why := foldStringEnv(f, 0, env, consteval.Val{K: consteval.Ref})
+			key := "C05.prefixfn/cryptofmt.OutputPrefix/" + row.pt
+			if why != "" {
+				r.Outside("C05.prefixfn", key, p.FuncPos(f), "cryptofmt.OutputPrefix does not fold: "+why)
+				continue
+			}
+			r.Check(got == row.want, "C05.prefixfn", key, p.FuncPos(f), fmt.Sprintf("folded on key ID 0x01020304 and prefix type %s the prefix is %x, the Tink wire format says %x", row.pt, got, row.want), fmt.Sprintf("%x", row.want))
+		}
 	}
 	r.Counts["output_prefix_functions"] = n
 	r.Min("C05.prefixfn", 40)
